@@ -248,9 +248,24 @@ def o3(tier):
         sat, m = sol.check([p != lit('state', 'pending')])
         if sat:
             r.fail('O3/pending_welcomes/predicate', f'pending welcomes are selected by "{sel[0].text}"')
+    # epoch hint lookup (used to find the epoch a media file was announced in): scoped to the group, epoch NOT NULL
+    prog = [S.parse_stmt(x) for x in S.program('messages.rs', 'find_message_epoch_by_tag_content')]
+    sel = [s for s in prog if s.kind == 'SELECT']
+    cases += 1
+    if len(sel) != 1 or sel[0].table != 'messages':
+        r.fail('O3/find_message_epoch_by_tag_content/shape', 'expected one SELECT on messages')
+    else:
+        cols = {c[0]: c for c in sel[0].where if c[0] != 'or'}
+        if not ('mls_group_id' in cols and cols['mls_group_id'][1] == '=' and cols['mls_group_id'][2] == '?'):
+            r.fail('O3/find_message_epoch_by_tag_content/not-group-scoped', f'the epoch-hint lookup is not restricted to the asking group ("{sel[0].text.split("WHERE")[1].strip()[:90]}"): '
+                   'a message of ANOTHER group with the same tag content decides the epoch (wrong media key after the group advances)')
+        if not ('epoch' in cols and cols['epoch'][1] == 'notnull'):
+            r.fail('O3/find_message_epoch_by_tag_content/null-epoch', 'the epoch-hint lookup may return a row without epoch')
+        if not ('tags' in cols and cols['tags'][1] == 'like'):
+            r.fail('O3/find_message_epoch_by_tag_content/no-tag-filter', 'the epoch-hint lookup does not filter on the tag content')
     r.cases = cases
     r.queries, r.solver_s = sol.queries, sol.time
-    r.functions = ['messages.rs::invalidate_messages_after_epoch', 'messages.rs::invalidate_processed_messages_after_epoch', 'messages.rs::find_failed_messages_for_retry',
+    r.functions = ['messages.rs::find_message_epoch_by_tag_content', 'messages.rs::invalidate_messages_after_epoch', 'messages.rs::invalidate_processed_messages_after_epoch', 'messages.rs::find_failed_messages_for_retry',
                    'messages.rs::mark_processed_message_retryable', 'welcomes.rs::pending_welcomes']
     r.bounds = {'epochs': 'all values < 2^63, NULL included', 'group / event ids': 'symbolic'}
     r.wall_s = time.time() - t0
